@@ -28,7 +28,7 @@ CLAIMED = {
 
     "C01": dict(
         technique="Lean 4: whole-program end-to-end theorems over `run` with history variables (E2E_conservation: accepted = in flight + consumed + discarded + lost at exit, per token item; E2E_default_flush_exactly_once: after a flush the reported records are exactly the records of every accepted span set, once), built on the collector conservation theorem (report of a default-configuration cycle is a permutation of exactly the submitted span sets, one per token item; Flushed/KeysNodup invariants) + drain lemmas; differential fh-seq vs model incl. stepped drains and thread exit; independent python spec oracle (exactly-once, due cycle)",
-        text="Kernel-checked for every collector state and every drained batch: C01_cycle_reports_everything_once (nothing drained is held back, duplicated or invented; the stale path for late spans gives the same result), with the invariants it needs proved preserved and initially true. Drain: C08_drain_batch / C08_drain_removes_dead. Over EVERY program of the model (Props/E2E.lean, invariants ChanInv / Dflt / HasRep proved preserved by all 46 operations): E2E_conservation, E2E_overflow_only_signals, E2E_default_reports_consumed, E2E_flush_delivers(_starts/_collections), E2E_default_flush_exactly_once (default configuration, reporter installed first: when flush() returns, reported records = records of every span set any channel accepted, each exactly once). "
+        text="Kernel-checked for every collector state and every drained batch: C01_cycle_reports_everything_once (nothing drained is held back, duplicated or invented; the stale path for late spans gives the same result), with the invariants it needs proved preserved and initially true. Drain: C08_drain_batch / C08_drain_removes_dead. Over EVERY program of the model (Props/E2E.lean, invariants ChanInv / Dflt / HasRep proved preserved by all 50 operations): E2E_conservation, E2E_overflow_only_signals, E2E_default_reports_consumed, E2E_flush_delivers(_starts/_collections), E2E_default_flush_exactly_once (default configuration, reporter installed first: when flush() returns, reported records = records of every span set any channel accepted, each exactly once). "
              "Tie: programs with 1-3 logical threads (real OS threads, real TLS destructors), hand-off of spans between threads, thread exit, cycles at every position (whole, or stepped through the verif hook points incl. the empty-pop/abandoned-check window), run against the real crate and the Lean model; an independent specification checks that every finished sampled span is delivered exactly once, in the report of the first cycle after it finished.",
         note="The end-to-end composition over `run` is now one theorem (E2E_default_flush_exactly_once) at the model's operation granularity; interleavings of single ring pushes with pops are the channel theorems of C09; the wall-clock bound (one report interval) is outside the model. History variables (Sys.g) are written by sendCmd/finishCycle/exitThread only and read by no operation. Trusted: rtrb as a sequentially consistent FIFO; python spec.",
         design="§4 C01"),
@@ -45,10 +45,10 @@ CLAIMED = {
         note="Completeness across threads needs every command pushed before the root's commit to be drained no later than it, and no command to be consumed before older commands of its own trace: defects D4 (two-pass drain, bd94330) and D14 (second-pass commands carried to the next cycle, e2fbc0a), both replayed on the unfixed code and fixed in /repo; the model has the same passes (Sys.cycStep phases atRx2, deferred commits, Sys.carried / splitSecond). The theorems characterise the report relative to the batch a cycle hands to the processing loops; that this batch is causally closed is argued in DESIGN.md and exercised by stepped cycles with operations of all threads between the steps (random streams and witnesses), not one Lean theorem over histories (the model has no happens-before relation). A thread's first tracing call during a drain blocks (background operations bgBegin/bgEnd).",
         design="§4 C03"),
     "C04": dict(
-        technique="Lean 4: drop-before-submit-before-commit lemmas, default-configuration no-op theorem (C04_noop_default_cycle); differential fh-seq vs model; python spec oracle",
+        technique="Lean 4: drop-before-submit-before-commit lemmas, default-configuration no-op theorem (C04_noop_default_cycle), whole-program per-thread order (Fifo_no_overtaking); differential fh-seq vs model; python spec oracle",
         text="Kernel-checked: C04_dropped_not_emitted (a consumed drop suppresses the id in that cycle even with the commit in the same batch, and releases it), C04_late_submits_discarded, C04_others_unaffected, C04_noop_default / C04_noop_default_cycle (D9 fix: in the default configuration removing all drop commands from a batch changes nothing). "
              "Tie: programs cancelling roots at arbitrary points in both configurations, multi-parent spans shared with non-cancelled traces; oracle checks nothing of a cancelled trace is ever delivered, every other trace exactly as specified, and that cancel() without cancelable(true) changes nothing (attachments parked before the cancel survive).",
-        note="'Once cancel() has been called' needs the drop to be drained no later than the commit: same thread by FIFO of forced commands (C09, D2 fix); across threads by the two-pass drain (D4 fix bd94330, witness corpus/C04/D4-*.txt) and the carried second-pass commands (D14 fix e2fbc0a, witness corpus/C04/D14-*.txt). Open finding D3 (a thread exiting with parked commands and a full queue can lose the drop) remains noted.",
+        note="'Once cancel() has been called' needs the drop to be drained no later than the commit: same thread by FIFO of forced commands (C09, D2 fix) and, over whole programs, Fifo_no_overtaking (Props/Fifo.lean: a command the thread's channel accepted earlier is popped earlier); across threads by the two-pass drain (D4 fix bd94330, witness corpus/C04/D4-*.txt) and the carried second-pass commands (D14 fix e2fbc0a, witness corpus/C04/D14-*.txt). Open known finding D21 (KNOWN-FINDING line, witness corpus/known/kf-C04-D21-*.txt): a cancel() parked in the calling thread's overflow list because its queue is full is overtaken by the root's commit sent from another thread; the theorems assume the cancel reached the ring (hypothesis CancelNotParked). D3 (a thread exiting with parked commands and a full queue can lose the drop) remains noted.",
         design="§4 C04"),
     "C05": dict(
         technique="Lean 4: whole-program invariant Prov proved preserved by every operation (C05_only_sampled_roots_delivered, C05_unsampled_trace_silent: for every program, no report contains a record of a trace that has no sampled root), plus flag-copy lemmas, submit filter theorem, unsampled-root theorem, scope any-sampled lemma; differential fh-seq vs model; python spec oracle",
@@ -98,7 +98,7 @@ CLAIMED = {
 
     "C09": dict(
         technique="Lean 4: step-granularity channel model with universally quantified pop placements; refinement-to-queue theorem, forced-never-dropped, FIFO, lossy-only-when-full, capacity, drop-sublist; differential on the real spsc::bounded(k) with pops injected before individual ring pushes (SenderBeforePush hook), exhaustive short sequences; overload scenarios on the real 10240-slot queue",
-        text="Kernel-checked for every capacity and every interleaving of the sender's individual ring pushes with consumer pops: C09_channel_is_a_queue (received ++ ring ++ parked grows by exactly the accepted value), C09_forced_never_dropped, C09_forced_fifo (finish/cancel signals exactly once, in order, never overtaken: D2 fix), C09_lossy_only_when_full, C09_capacity, C09_pops_preserve, C09_drop_sublist (thread exit only deletes). Local limits: C07_queue_at_limit / C07_scope_at_limit. Whole programs (Props/E2E.lean): E2E_conservation (nothing accepted is lost or duplicated anywhere between channel and processing loops), E2E_overflow_only_signals (a best-effort send is never parked). "
+        text="Kernel-checked for every capacity and every interleaving of the sender's individual ring pushes with consumer pops: C09_channel_is_a_queue (received ++ ring ++ parked grows by exactly the accepted value), C09_forced_never_dropped, C09_forced_fifo (finish/cancel signals exactly once, in order, never overtaken: D2 fix), C09_lossy_only_when_full, C09_capacity, C09_pops_preserve, C09_drop_sublist (thread exit only deletes). Local limits: C07_queue_at_limit / C07_scope_at_limit. Whole programs (Props/E2E.lean): E2E_conservation (nothing accepted is lost or duplicated anywhere between channel and processing loops), E2E_overflow_only_signals (a best-effort send is never parked); Props/Fifo.lean: Fifo_per_thread_order (for every program and every thread that has not exited: accepted in order = popped by the collector in order ++ ring ++ overflow list, through every collector step incl. both drain passes), Fifo_drained_is_prefix, Fifo_no_overtaking. "
              "Tie: the real Sender/Receiver with capacities 1-8: all op sequences up to length 4 (quick) / 6 (thorough) over {send, force_send, pop, force_send with a pop before every push} plus random longer ones with random pop placements and sender drop, compared with the model and checked by an independent FIFO oracle; four scenarios that fill the real 10240-slot queue (cancel / finish / start while full, recovery afterwards) compared with the system model and with explicit expectations.",
         note="Open finding D3: Sender::drop at thread exit loses parked commands when the ring is full (C09 limits itself to 'while the thread lives'; witness in Props/C09.lean). rtrb is modelled as a FIFO with exact capacity.",
         design="§4 C09"),
